@@ -27,6 +27,10 @@ package redisemu
 //@ ghost gWakeKey string
 // the key a command will wake is fixed when its unblockKey is built
 //@ immutable unblockKey.keyName
+// DEL / EXISTS: the number of look-ups that found a live key
+//@ ghost gFound int
+// APPEND: length of the value found
+//@ ghost gOldLen int
 // a command's lock identity is issued by its database's counter (newDataStoreCommand, composite literal) and handed
 // on only by EXEC to the commands it replays on the database it owns; an id copied onto a command object of another
 // database would pass that database's re-entrancy test by accident
